@@ -435,6 +435,31 @@ def P19(m, R):
             tgt = norm(st.value.func.value)
             ev = env.get('#ev', ())
             env['#ev'] = ev + ((tgt, norm(st.value.args[0])),)
+    # the two facts the matcher loop establishes: CF "the token is the first code of some colour function" (assigned under a comparison
+    # with fn.setup_seq[0]) and MT "a setup sequence matches here" (assigned under seq_starts_with_fn); copies are followed
+    CF, MT = set(), set()
+    for n in ast.walk(loop):
+        if isinstance(n, ast.If):
+            tt_ = norm(n.test)
+            tgt = MT if 'seq_starts_with_fn' in tt_ else CF if 'setup_seq[0]' in tt_ else None
+            if tgt is not None:
+                for x in n.body:
+                    if isinstance(x, (ast.Assign, ast.AugAssign)):
+                        for t_ in (x.targets if isinstance(x, ast.Assign) else [x.target]):
+                            tgt.update(names_in(t_))
+                if tgt is MT and len(n.orelse) == 1 and isinstance(n.orelse[0], ast.If) and 'setup_seq[0]' in norm(n.orelse[0].test):
+                    pass
+    for _ in range(3):
+        for n in ast.walk(loop):
+            if isinstance(n, ast.Assign) and len(n.targets) == 1:
+                t_, v_ = n.targets[0], n.value
+                pairs = list(zip(t_.elts, v_.elts)) if isinstance(t_, ast.Tuple) and isinstance(v_, ast.Tuple) and len(t_.elts) == len(v_.elts) else [(t_, v_)]
+                for a_, b_ in pairs:
+                    if isinstance(a_, ast.Name) and isinstance(b_, ast.Name):
+                        if b_.id in CF:
+                            CF.add(a_.id)
+                        if b_.id in MT:
+                            MT.add(a_.id)
     for flag in (True, False):
         for is_int in (True, False):
             cons = 'add_erroneous=%s, %s token' % (flag, 'int' if is_int else 'non-int')
@@ -453,15 +478,20 @@ def P19(m, R):
                 # the only skip: fn_found and not fn_set
                 bad = []
                 for p, e in skipped:
-                    ok = e.get('fn_found') is True and e.get('fn_set') is False
-                    if not ok:
-                        ok = any(nd.kind == 'test' and 'fn_found' in norm(nd.test) and 'fn_set' in norm(nd.test) for nd in p)
+                    tested = set()
+                    for nd in p:
+                        if nd.kind == 'test':
+                            tested |= set(names_in(nd.test))
+                    ok = bool(tested & CF) and bool(tested & MT)
                     if not ok:
                         bad.append(p)
                 R.check(not bad and kept, f, loop, 'an integer token is skipped only as a colour code without its setup sequence',
                         'an integer token can be skipped for another reason', construct=cons, witness=_path_text(bad[0], 12) if bad else None)
             else:
                 R.check(not kept, f, loop, 'non-integer tokens contribute nothing', 'a non-integer token is kept although add_erroneous=False', construct=cons)
+    # group start: abstract interpretation of the scan as a state machine over (accumulator empty?, remaining count) -- whenever no
+    # group is pending, an integer token must be matched against the colour functions before it is stored
+    _group_start(R, f, loop, value, cur_set, ae)
     # dangling group: flushed iff add_erroneous
     tail = f.body[f.body.index(loop) + 1:]
     g = next((n for n in tail if isinstance(n, ast.If) and cur_set in names_in(n.test)), None)
@@ -493,14 +523,230 @@ def P19(m, R):
         if not any(isinstance(x, ast.Assign) and norm(x.targets[0]) == cur_set and norm(x.value) == '[]' for x in g.body):
             problems.append('the accumulator is not cleared after emission')
     sets = [n for n in ast.walk(loop) if isinstance(n, ast.Assign) and dec and norm(n.targets[0]) == norm(dec[0].target)]
+    # variables that hold the matched function's total length (assigned from fn.total_seq_count, then copied)
+    TS = {'fn.total_seq_count'}
+    for _ in range(3):
+        for n in ast.walk(loop):
+            if isinstance(n, ast.Assign) and len(n.targets) == 1:
+                t_, v_ = n.targets[0], n.value
+                pairs = list(zip(t_.elts, v_.elts)) if isinstance(t_, ast.Tuple) and isinstance(v_, ast.Tuple) and len(t_.elts) == len(v_.elts) else [(t_, v_)]
+                for a_, b_ in pairs:
+                    if isinstance(a_, ast.Name) and norm(b_) in TS and a_.id != (norm(dec[0].target) if dec else ''):
+                        TS.add(a_.id)
     vals = sorted(norm(s.value) for s in sets)
-    if 'fn.total_seq_count' not in vals:
+    if not any(v in TS for v in vals):
         problems.append('the expected group length is never taken from the matched function (%s)' % vals)
     for v in vals:
-        if v != 'fn.total_seq_count' and not (isinstance(const_val(ast.parse(v, mode='eval').body, None), int) and const_val(ast.parse(v, mode='eval').body) <= 1):
+        if v not in TS and not (isinstance(const_val(ast.parse(v, mode='eval').body, None), int) and const_val(ast.parse(v, mode='eval').body) <= 1):
             problems.append('a plain code is given the group length %s: the following codes are swallowed into its group' % v)
     R.check(not problems, f, loop, 'a group is 1 code or the matched function\'s total length; emitted and cleared when complete', '; '.join(problems), construct=cons)
 
+
+
+def _group_start(R, f, loop, value, cur_set, ae):
+    cons = 'group start'
+    dec = [n for n in ast.walk(loop) if isinstance(n, ast.AugAssign) and isinstance(n.op, ast.Sub) and const_val(n.value) == 1 and isinstance(n.target, ast.Name)]
+    if len(dec) != 1:
+        return
+    cnt = dec[0].target.id
+    pre = f.body[:f.body.index(loop)]
+    init = {}
+    for st in pre:
+        if isinstance(st, ast.Assign) and len(st.targets) == 1 and isinstance(st.targets[0], ast.Name):
+            if st.targets[0].id == cnt and isinstance(const_val(st.value, None), int):
+                init['cnt'] = const_val(st.value)
+            if st.targets[0].id == cur_set and isinstance(st.value, ast.List) and not st.value.elts:
+                init['cs'] = 'E'
+    if set(init) != {'cnt', 'cs'}:
+        R.undecided(f, loop, 'initial values of %s / %s before the scan not recognised' % (cnt, cur_set), construct=cons)
+        return
+
+    class Fork(Exception):
+        pass
+
+    def is_matcher(st):
+        return isinstance(st, ast.For) and any(call_name(x) == 'seq_starts_with_fn' for x in ast.walk(st))
+
+    def norm_cnt(c):
+        return c if c == 'BIG' else (0 if c <= 0 else c if c <= 2 else 'BIG')
+
+    def truth(t, st_):
+        """three-valued truth of a test in abstract state st_"""
+        if isinstance(t, ast.UnaryOp) and isinstance(t.op, ast.Not):
+            v = truth(t.operand, st_)
+            return None if v is None else not v
+        if isinstance(t, ast.BoolOp):
+            vs = [truth(x, st_) for x in t.values]
+            if isinstance(t.op, ast.And):
+                return False if False in vs else (None if None in vs else True)
+            return True if True in vs else (None if None in vs else False)
+        tx = norm(t)
+        if tx == cur_set:
+            return st_['cs'] == 'N'
+        if tx == 'len(%s)' % cur_set:
+            return st_['cs'] == 'N'
+        if tx == 'isinstance(%s, int)' % value:
+            return True
+        if tx == ae:
+            return st_['ae']
+        if isinstance(t, ast.Name) and t.id in st_['vars']:
+            v = st_['vars'][t.id]
+            return v if isinstance(v, bool) else (None if v == '?' else (False if v is None else True))
+        if isinstance(t, ast.Compare) and len(t.ops) == 1:
+            l, r, op = t.left, t.comparators[0], t.ops[0]
+            if norm(r) == 'None' and isinstance(op, (ast.Is, ast.IsNot)) and isinstance(l, ast.Name) and l.id in st_['vars']:
+                v = st_['vars'][l.id]
+                if v == '?':
+                    return None
+                return (v is None) if isinstance(op, ast.Is) else (v is not None)
+            if norm(l) == cnt and isinstance(const_val(r, None), int):
+                c = st_['cnt']
+                k = const_val(r)
+                if c == 'BIG':
+                    lo = 3
+                    res = {ast.Gt: lo > k, ast.GtE: lo >= k, ast.Lt: False if k <= lo else None, ast.LtE: False if k < lo else None,
+                           ast.Eq: False if k < lo else None, ast.NotEq: True if k < lo else None}.get(type(op))
+                    return res
+                return {ast.Gt: c > k, ast.GtE: c >= k, ast.Lt: c < k, ast.LtE: c <= k, ast.Eq: c == k, ast.NotEq: c != k}.get(type(op))
+            if norm(l) == 'len(%s)' % cur_set and const_val(r, None) == 0:
+                e = st_['cs'] == 'E'
+                return {ast.Eq: e, ast.NotEq: not e, ast.Gt: not e, ast.LtE: e}.get(type(op))
+        return None
+
+    def clone(st_):
+        c = dict(st_)
+        c['vars'] = dict(st_['vars'])
+        return c
+
+    results = []        # (end state, how the iteration ended)
+
+    def run(stmts, st_, k):
+        """continuation-passing abstract execution; k(state) is called at the end of the list"""
+        if not stmts:
+            return k(st_)
+        s0, rest = stmts[0], stmts[1:]
+        if isinstance(s0, ast.If):
+            v = truth(s0.test, st_)
+            for outcome in ([v] if v is not None else [True, False]):
+                run((s0.body if outcome else s0.orelse) + rest, clone(st_), k)
+            return
+        if isinstance(s0, ast.Continue):
+            results.append((st_, 'continue'))
+            return
+        if isinstance(s0, (ast.Break, ast.Return, ast.Raise)):
+            results.append((st_, 'exit'))
+            return
+        if is_matcher(s0):
+            if st_['stored_first']:
+                pass
+            arms = []
+            for n in s0.body:
+                if isinstance(n, ast.If):
+                    arms.append(n.body)
+                    if len(n.orelse) == 1 and isinstance(n.orelse[0], ast.If):
+                        arms.append(n.orelse[0].body)
+            # outcomes: nothing matched, each arm alone, all arms
+            combos = [[]] + [[a] for a in arms] + ([arms] if len(arms) > 1 else [])
+            for combo in combos:
+                s2 = clone(st_)
+                s2['consulted'] = True
+                body = [x for a in combo for x in a]
+                run(body + rest, s2, k)
+            return
+        if isinstance(s0, ast.Assign) and len(s0.targets) == 1:
+            t_, v_ = s0.targets[0], s0.value
+            pairs = list(zip(t_.elts, v_.elts)) if isinstance(t_, ast.Tuple) and isinstance(v_, ast.Tuple) and len(t_.elts) == len(v_.elts) else [(t_, v_)]
+            vals = []
+            for a_, b_ in pairs:
+                if not isinstance(a_, ast.Name):
+                    vals.append((None, None))
+                    continue
+                if isinstance(b_, ast.Constant):
+                    val = b_.value
+                elif isinstance(b_, ast.Name) and b_.id in st_['vars']:
+                    val = st_['vars'][b_.id]
+                elif isinstance(b_, ast.Name) and b_.id == cnt:
+                    val = st_['cnt']
+                elif norm(b_).endswith('.total_seq_count'):
+                    val = 'BIG'
+                elif isinstance(b_, ast.List) and not b_.elts:
+                    val = 'EMPTY'
+                else:
+                    val = '?'
+                vals.append((a_.id, val))
+            for nme, val in vals:
+                if nme is None:
+                    continue
+                if nme == cnt:
+                    if val == '?' or isinstance(val, bool) or val is None or val == 'EMPTY':
+                        raise Undecided('%s is assigned %s' % (cnt, short(s0.value)))
+                    st_['cnt'] = norm_cnt(val) if val != 'BIG' else 'BIG'
+                elif nme == cur_set:
+                    st_['cs'] = 'E' if val == 'EMPTY' else 'N'
+                else:
+                    st_['vars'][nme] = val
+            return run(rest, st_, k)
+        if isinstance(s0, ast.AugAssign) and isinstance(s0.target, ast.Name) and s0.target.id == cnt and isinstance(s0.op, (ast.Sub, ast.Add)) and \
+                isinstance(const_val(s0.value, None), int):
+            d = const_val(s0.value) * (1 if isinstance(s0.op, ast.Add) else -1)
+            if st_['cnt'] == 'BIG':
+                # at least 3 before: 2 or still big afterwards
+                for c2 in ((2, 'BIG') if d == -1 else ('BIG',)):
+                    s2 = clone(st_)
+                    s2['cnt'] = c2
+                    run(rest, s2, k)
+                return
+            st_['cnt'] = norm_cnt(st_['cnt'] + d)
+            return run(rest, st_, k)
+        if isinstance(s0, ast.Expr) and isinstance(s0.value, ast.Call) and call_name(s0.value) in ('append', 'extend') and \
+                isinstance(s0.value.func, ast.Attribute) and norm(s0.value.func.value) == cur_set:
+            if st_['cs'] == 'E' and not st_['consulted']:
+                st_['stored_first'] = True
+            st_['cs'] = 'N'
+            return run(rest, st_, k)
+        if isinstance(s0, (ast.For, ast.While, ast.Try, ast.With)):
+            raise Undecided('statement %s inside the scan' % short(s0))
+        return run(rest, st_, k)
+
+    problems = []
+    try:
+        for flag in (False, True):
+            seen = set()
+            work = [(init['cs'], norm_cnt(init['cnt']))]
+            reach = {}
+            while work:
+                hs = work.pop()
+                if hs in seen:
+                    continue
+                seen.add(hs)
+                results.clear()
+                st0 = {'cs': hs[0], 'cnt': hs[1], 'ae': flag, 'vars': {}, 'consulted': False, 'stored_first': False}
+                run(list(loop.body), st0, lambda s_: results.append((s_, 'end')))
+                for s_, how in list(results):
+                    if how == 'exit':
+                        continue
+                    if hs[0] == 'E' and s_['stored_first']:
+                        problems.append((flag, hs, reach.get(hs)))
+                    nh = (s_['cs'], s_['cnt'])
+                    if nh not in seen:
+                        reach.setdefault(nh, (hs, how))
+                        work.append(nh)
+    except Undecided as e:
+        R.undecided(f, loop, 'scan not interpreted: %s' % e, construct=cons)
+        return
+    except RecursionError:
+        R.undecided(f, loop, 'scan too deep to interpret', construct=cons)
+        return
+    if problems:
+        flag, hs, via = problems[0]
+        how = ''
+        if via:
+            how = ' -- reached from the state (%s, %s left) by an iteration ending in `%s`' % ('empty' if via[0][0] == 'E' else 'pending', via[0][1], via[1])
+        R.viol(f, loop, 'with add_erroneous=%s the scan can start an iteration with no group pending and %s = %s, and then stores the token without '
+               'matching it against the colour functions: a colour group that starts there is split into single codes%s' % (flag, cnt, hs[1], how), construct=cons)
+    else:
+        R.ok(f, loop, 'whenever no group is pending an integer token is matched against the colour functions before it is stored '
+             '(all reachable states of (accumulator, %s))' % cnt, construct=cons)
 
 # ----------------------------------------------------------------------------------------------------------------------
 @rule('P20', 'seam-order: __iadd__ captures the shift before extending the text; every stored key is incoming key + shift', floor=3)
